@@ -507,6 +507,63 @@ fn fn_program(kind: usize, def: Option<Q>, a: usize, b: usize) -> Option<Expect>
 }
 
 // ---------------------------------------------------------------------------
+// family A: an array next to a scalar of the same base name and another type
+// ---------------------------------------------------------------------------
+
+// (an array that is never declared is not supported by the implementation at all: not generated)
+const ARRAY_DECLS: [&str; 3] = ["DIM", "REDIM", "REDIM twice"];
+
+/// `Nam$` and the array `Nam!()` are different variables whatever declares the array and whichever comes first.
+fn array_programs() -> Vec<Expect> {
+    let mut out = vec![];
+    for def in DEFS {
+        let resolve = |s: Sp| s.unwrap_or(def.unwrap_or(Q::Sng));
+        for (si, s1) in SPELLINGS.iter().enumerate() {
+            for (ai, s2) in SPELLINGS.iter().enumerate() {
+                let (q1, q2) = (resolve(*s1), resolve(*s2));
+                if q1 == q2 {
+                    continue;
+                }
+                for decl in ARRAY_DECLS {
+                    for scalar_first in [true, false] {
+                        let scalar = spell("Nam", *s1, si);
+                        let array = spell("Nam", *s2, ai + 1);
+                        let (l1, p1) = lit(q1, 3);
+                        let (l2, p2) = lit(q2, 4);
+                        let mut text = String::new();
+                        if let Some(d) = def {
+                            text.push_str(&format!("{} N\n", d.def_kw()));
+                        }
+                        let assign_scalar = format!("{} = {}\n", scalar, l1);
+                        let declare = match decl {
+                            "DIM" => format!("DIM {}(1 TO 2)\n", array),
+                            "REDIM" => format!("REDIM {}(1 TO 2)\n", array),
+                            "REDIM twice" => format!("REDIM {}(1 TO 2)\nREDIM {}(0 TO 1)\n", array, array),
+                            _ => String::new(),
+                        };
+                        if scalar_first {
+                            text.push_str(&assign_scalar);
+                            text.push_str(&declare);
+                        } else {
+                            text.push_str(&declare);
+                            text.push_str(&assign_scalar);
+                        }
+                        text.push_str(&format!("{}(1) = {}\nPRINT {}; \"|\"; {}(1)\n", array, l2, scalar, array));
+                        out.push(Expect {
+                            text,
+                            want: Ok(format!("{}|{}\r\n", p1, p2)),
+                            label: format!("scalar {} and array {}() ({}), default {:?}, {}", scalar, array, decl, def, if scalar_first { "scalar first" } else { "array first" }),
+                            sigkey: format!("array next to a scalar of another type|{}", decl),
+                        });
+                    }
+                }
+            }
+        }
+    }
+    out
+}
+
+// ---------------------------------------------------------------------------
 
 fn judge(e: &Expect, g: &str, acc_hist: &mut BTreeMap<String, u64>, bads: &mut Vec<Value>, replay: Value) {
     let o = run_pipeline(&e.text, &RunOpts { budget: 300_000, ..RunOpts::default() });
@@ -595,6 +652,17 @@ pub fn worker(case: &Value) -> Value {
                 }
             }
         }
+        "arrays" => {
+            let all = array_programs();
+            for idx in lo..hi.min(all.len()) {
+                let e = &all[idx];
+                n += 1;
+                if sample.is_null() {
+                    sample = json!({"group": g, "label": e.label, "text": e.text});
+                }
+                judge(e, g, &mut hist, &mut bads, json!({"g": g, "quick": quick, "lo": idx, "hi": idx + 1}));
+            }
+        }
         "deftype" => {
             let configs = def_configs(quick);
             for idx in lo..hi.min(configs.len()) {
@@ -663,6 +731,7 @@ pub fn drive(tier: &str) -> i32 {
         ("sub", 7 * 216),
         ("fn", 5 * 216),
         ("late", 1),
+        ("arrays", array_programs().len()),
     ];
     for (g, t) in totals {
         let chunk = if g == "deftype" { 20 } else { 150 };
@@ -682,7 +751,7 @@ pub fn drive(tier: &str) -> i32 {
         run.capped = true;
     }
     let mut ev = Evidence::new("exploration");
-    ev.set("rule", "deftype: every DEFINT / DEFLNG / DEFSNG / DEFDBL / DEFSTR statement over every single letter and every range with ends in {A, B, M, Y, Z} (thorough: all 325 ranges), lower / mixed case of keyword and range ends, two ranges in one statement and a later statement overriding an earlier one; each program assigns the five suffixed variables of a name starting with each of the 26 letters and prints the bare name (in another letter case): the model's 26-entry default table predicts which one it is. late: a DEFtype statement after the first use of a bare name (the name keeps its earlier default, names first used afterwards have the new one, also inside a SUB that follows). global: default type of the first letter (none or one of 5 DEFtype statements) x declaration (none, DIM name AS each of 5 types, DIM with each of the 6 spellings) x every sequence of 1..2 (thorough 3) assignments through the 6 spellings (bare and five suffixes) in rotating letter case: the model predicts the first spelling the checker must reject (after DIM AS type only the bare name and the matching suffix are legal) or, if none, the value each spelling prints. sub: an unshared global against a local of the same spelling, against a local declared AS each type and against a parameter declared AS each type; DIM SHARED with each spelling while another spelling is used first in the SUB; DIM SHARED AS type against each spelling; a global CONST read and assigned in a SUB; a parameter in each spelling with another spelling used first — each under every default type. fn: a FUNCTION declared with each spelling and called with each spelling (the same function iff the types agree), its result assigned twice through each spelling of the same type (the last value counts) and through every other spelling (not decided by the rules: any BASIC-level outcome, no internal failure), a parameter in each spelling given a variable of each type by reference, a parameter declared AS each type used through each spelling inside — each under every default type.");
+    ev.set("rule", "deftype: every DEFINT / DEFLNG / DEFSNG / DEFDBL / DEFSTR statement over every single letter and every range with ends in {A, B, M, Y, Z} (thorough: all 325 ranges), lower / mixed case of keyword and range ends, two ranges in one statement and a later statement overriding an earlier one; each program assigns the five suffixed variables of a name starting with each of the 26 letters and prints the bare name (in another letter case): the model's 26-entry default table predicts which one it is. late: a DEFtype statement after the first use of a bare name (the name keeps its earlier default, names first used afterwards have the new one, also inside a SUB that follows). arrays: a scalar and an array of the same base name and different types (each of the 6 spellings for both, under every default type, the array DIMmed / REDIMmed / REDIMmed twice, either one first) are different variables. global: default type of the first letter (none or one of 5 DEFtype statements) x declaration (none, DIM name AS each of 5 types, DIM with each of the 6 spellings) x every sequence of 1..2 (thorough 3) assignments through the 6 spellings (bare and five suffixes) in rotating letter case: the model predicts the first spelling the checker must reject (after DIM AS type only the bare name and the matching suffix are legal) or, if none, the value each spelling prints. sub: an unshared global against a local of the same spelling, against a local declared AS each type and against a parameter declared AS each type; DIM SHARED with each spelling while another spelling is used first in the SUB; DIM SHARED AS type against each spelling; a global CONST read and assigned in a SUB; a parameter in each spelling with another spelling used first — each under every default type. fn: a FUNCTION declared with each spelling and called with each spelling (the same function iff the types agree), its result assigned twice through each spelling of the same type (the last value counts) and through every other spelling (not decided by the rules: any BASIC-level outcome, no internal failure), a parameter in each spelling given a variable of each type by reference, a parameter declared AS each type used through each spelling inside — each under every default type.");
     ev.set("exhaustive", !run.capped);
     ev.set("plan", json!(plan));
     ev.set("distinct_nontrivial", run.nontrivial);
